@@ -414,7 +414,7 @@ theorem readGantt_noSections (title : Option Str) (weekends : Bool) (tick : Opti
 
 /-! ### the network source -/
 
-def qname (s : Str) : Str := s.filter (fun c => c != '"')
+def qname (s : Str) : Str := escLabel (s.filter (fun c => c != '"'))
 
 theorem nodeLabel_eq (idt name : Str) : nodeLabel idt name = idt ++ lit "{{" ++ (qname name ++ lit "}}") := by
   simp [nodeLabel, qname]
@@ -428,11 +428,51 @@ theorem IdOk.notin {s : Str} (h : IdOk s) (c : Char) (hc : c.isDigit = false) (h
   · rw [hc] at h1; cases h1
   · exact hc' h1
 
-def NameOk (s : Str) : Prop := '\n' ∉ s ∧ '{' ∉ s ∧ '}' ∉ s
+/-- a character of the escaped label is a character of the text or one of `#123;`, `#125;` -/
+theorem mem_escLabel {s : Str} {c : Char} (h : c ∈ escLabel s) :
+    (c ∈ s ∧ c ≠ '{' ∧ c ≠ '}') ∨ c ∈ lit "#123;" ∨ c ∈ lit "#125;" := by
+  simp only [escLabel, List.mem_flatMap] at h
+  obtain ⟨x, hx, hc⟩ := h
+  split at hc
+  · exact Or.inr (Or.inl hc)
+  · split at hc
+    · exact Or.inr (Or.inr hc)
+    · rename_i h1 h2
+      have : c = x := by simpa using hc
+      subst this
+      exact Or.inl ⟨hx, by simpa using h1, by simpa using h2⟩
+
+/-- the escaped label never contains an opening brace -/
+theorem lbrace_notin_escLabel (s : Str) : '{' ∉ escLabel s := by
+  intro h
+  rcases mem_escLabel h with h | h | h
+  · exact h.2.1 rfl
+  · revert h; decide
+  · revert h; decide
+
+/-- the escaped label never contains a closing brace -/
+theorem rbrace_notin_escLabel (s : Str) : '}' ∉ escLabel s := by
+  intro h
+  rcases mem_escLabel h with h | h | h
+  · exact h.2.2 rfl
+  · revert h; decide
+  · revert h; decide
+
+/-- the escaped label contains a line break only if the text does -/
+theorem nl_notin_escLabel {s : Str} (hs : '\n' ∉ s) : '\n' ∉ escLabel s := by
+  intro h
+  rcases mem_escLabel h with h | h | h
+  · exact hs h.1
+  · revert h; decide
+  · revert h; decide
+
+/-- single-line names: the only condition left on a name (braces are escaped by the renderer) -/
+def NameOk (s : Str) : Prop := '\n' ∉ s
 
 theorem NameOk.qname {s : Str} (h : NameOk s) : '\n' ∉ qname s ∧ '{' ∉ qname s ∧ '}' ∉ qname s := by
-  obtain ⟨h1, h2, h3⟩ := h
-  simp [Pj.Render.qname, List.mem_filter, h1, h2, h3]
+  refine ⟨nl_notin_escLabel ?_, lbrace_notin_escLabel _, rbrace_notin_escLabel _⟩
+  intro hm
+  exact h (List.mem_filter.1 hm).1
 
 theorem readNode_label (idt name : Str) (hi : IdOk idt) (hn : NameOk name) :
     readNode (nodeLabel idt name) = some (.task idt (qname name)) := by
